@@ -5,7 +5,7 @@ STYLE_FIELDS = [
     ("_color", "Optional[Color]"), ("_bgcolor", "Optional[Color]"),
     ("_attributes", "int"), ("_set_attributes", "int"),
     ("_link", "Optional[ostr]"), ("_link_id", "ostr"),
-    ("_ansi", "Optional[str]"), ("_style_definition", "Optional[ostr]"),
+    ("_ansi", "Optional[tuple[int,str]]"), ("_style_definition", "Optional[ostr]"),
     ("_hash", "int"), ("_null", "bool"),
 ]
 
@@ -41,8 +41,14 @@ def register(R):
              " and implies(s._null, s._color is None and s._bgcolor is None and s._set_attributes == 0 and s._attributes == 0 and not s._link)"
              " and s._hash == style_hash(s)"
              # the cached string form, when present, is the one of these very fields
-             " and implies(s._style_definition is not None, s._style_definition == style_defn(s._color, s._bgcolor, s._attributes, s._set_attributes, s._link))")
+             " and implies(s._style_definition is not None, s._style_definition == style_defn(s._color, s._bgcolor, s._attributes, s._set_attributes, s._link))"
+             " and ansi_cache_ok(s)")
     R.ufun("style_defn", "ostr")
+    # the cached SGR parameter string, when present, is the one of these very fields for the colour system it was made for
+    # (links are not part of it): a cache entry may only travel to a style with the same colours and attributes
+    R.ufun("style_ansi", "str")
+    R.specfn("ansi_cache_ok", ["s"],
+             "implies(s._ansi is not None, s._ansi[1] == style_ansi(s._color, s._bgcolor, s._attributes & s._set_attributes, s._ansi[0]))")
     # the property's combination rule, per field: the right operand wins exactly where it specifies a value
     R.specfn("add_color", ["a", "b"], "b._color if b._color is not None else a._color")
     R.specfn("add_bgcolor", ["a", "b"], "b._bgcolor if b._bgcolor is not None else a._bgcolor")
@@ -67,7 +73,7 @@ def register(R):
     )
     for name in ("copy", "without_color"):
         R.contract(
-            "rich.style", f"Style.{name}", serves=["C06"], bv=True,
+            "rich.style", f"Style.{name}", serves=["C06", "C03"] if name == "without_color" else ["C06"], bv=True,
             params={"self": "Style"}, returns="Style",
             requires=["wf_style(self)"],
             ensures=["wf_style(result)"] + (
@@ -85,7 +91,8 @@ def register(R):
         ensures=["result._link == link", "result._color == self._color and result._bgcolor == self._bgcolor",
                  "result._attributes == self._attributes and result._set_attributes == self._set_attributes",
                  "result._hash == style_hash(result)",
-                 "implies(result._style_definition is not None, result._style_definition == style_defn(result._color, result._bgcolor, result._attributes, result._set_attributes, result._link))"],
+                 "implies(result._style_definition is not None, result._style_definition == style_defn(result._color, result._bgcolor, result._attributes, result._set_attributes, result._link))",
+                 "ansi_cache_ok(result)"],
         native=False,
     )
     R.contract(
